@@ -566,7 +566,7 @@ func init() {
 		Rule: "each case is one random history (10-60 operations) on one Set: GetTemplate (+Execute), executing a template obtained earlier once more, Set.Parse of a template extending/importing/including the others (+Execute), file edits with fresh version tokens, deletions, injected faults (Exists true but Open fails, reader failing after n bytes, unparsable content, broken parent) " +
 			"over 4 base names x 5 extension lists x {development mode, normal} x {default cache, recording custom cache (pre-filled with stale entries in development mode)}; files extend/import/include only higher-numbered bases (acyclic); " +
 			"oracle per operation: outcome, exact Loader.Exists/Open trace (hit = none, miss = extension probes in order up to the first existing file), pointer identity on hits, Cache.Put list (never in development mode or during Parse), rendered versions; " +
-			"non-trivial = history contains a failed lookup and (a cache hit or development mode); distinct by configuration and hit/miss/failure counts; case 0 is the directed witness of known finding K2",
+			"non-trivial = history contains a failed lookup and (a cache hit or development mode); distinct by configuration and hit/miss/failure counts; case 0 is the directed witness of known finding K2 Since waves 8/9: extension lists whose entries do not start with a dot; files of length zero.",
 		Assumptions: []string{"requested names are bare base names (a name that equals another name plus a configured extension is the separate known finding K2)", "the in-memory loader is correct (C19)"},
 		NCases:      c16n,
 		RunCase:     c16run,
